@@ -1,6 +1,6 @@
 """Cache discipline rules: WRITEONCE, KEY, MEMO, CACHE-BORROW, FROZEN-BORROW  (C10, C14, C18, C19, C20)."""
 from ..core import RuleResult
-from ..ir import access_paths, walk
+from ..ir import access_paths, walk, strip
 from .. import anchors
 from .replace_cache import groups, expr_mentions_field, _group_info
 
@@ -37,7 +37,7 @@ def rule_writeonce(ctx):
     r = RuleResult('WRITEONCE', 'once a map has been cached for an option set it is never removed or replaced: the only '
                                 'writers of the map cache are first-writers (VacantEntry::insert / Entry::or_insert*); '
                                 'the hash cache is written through get_or_init only')
-    r.floor = 5
+    r.floor = 4
     r.assumptions.append('dashmap contract: VacantEntry::insert / Entry::or_insert* never overwrite; entry() holds the shard lock')
     A = anchors.cached_source(f)
     # 1. every call on a dashmap type anywhere in the crate
@@ -112,7 +112,7 @@ def rule_key(ctx):
     f = ctx.facts()
     r = RuleResult('KEY', 'the map cache is keyed by the caller\'s full option set and the value stored under a key was '
                           'computed with those same options (results cached for one column setting are never served for the other)')
-    r.floor = 4
+    r.floor = 3
     A = anchors.cached_source(f)
     mo = anchors.adt_by_name(f, 'MapOptions')
     for b in f.body_list:
@@ -166,7 +166,7 @@ def rule_memo(ctx):
     r = RuleResult('MEMO', 'lazily filled cells are pure memo caches: only get/get_or_init/clone are applied to them, every '
                            'initialiser reads only data fields of the same object and all initialisers of a cell agree, and no '
                            'PartialEq/Hash body observes cache state except through such an accessor')
-    r.floor = 12
+    r.floor = 6
     cells = anchors.once_string_cells(f)
     C = anchors.cached_source(f)
     cells_all = [(a, fl, 'string') for a, fl in cells] + [(C['adt'], C['cached_hash'], 'hash')]
@@ -269,5 +269,39 @@ def rule_memo(ctx):
                                       'differently depending on which observers were called' % (b.d.get('impl_trait'), fld),
                                       derived=b.d.get('derived'))
 
+    r.check_floor()
+    return r
+
+
+def rule_encode_all(ctx):
+    """ENCODE-ALL: sibling collectors agree — every mapping a map-collecting callback sees is fed to the encoder"""
+    from .streams import closure_kind
+    f = ctx.facts()
+    r = RuleResult('ENCODE-ALL', 'every function that collects a SourceMap from a chunk stream (map(), and the tee that fills the cache while '
+                                 'streaming) feeds every mapping it sees to the mappings encoder unconditionally, so the cached map equals '
+                                 'what map() of the wrapped source encodes')
+    r.floor = 2
+    mp = anchors.adt_by_name(f, 'Mapping')['path']
+    for b in f.body_list:
+        if b.promoted is not None or b.d['kind'] != 'Closure' or closure_kind(b) != 'chunk':
+            continue
+        enc = []
+        for pt, t in b.calls():
+            c = t.get('callee')
+            if c and c['name'] == 'encode' and c.get('local') and len(t['args']) == 2 and mp in t['arg_tys'][1]:
+                enc.append((pt, t))
+        if not enc:
+            continue
+        ok = False
+        for pt, t in enc:
+            roots = [x for x in strip(b.expr_of_operand(t['args'][1]), through_calls=set())]
+            from_param = any(x[0] == 'arg' and x[1] == 3 and x[3] == b.key for x in roots)
+            if from_param and b.postdominates(pt, (0, 0)):
+                ok = True
+        r.site('%s: collector encodes every mapping it receives' % b.path, enc[0][1]['s'], 'ok' if ok else 'violation')
+        if not ok:
+            r.violation('%s:conditional-encode' % b.path, enc[0][1]['s'], b.path,
+                        'this collector feeds the mappings encoder only on some paths (or not with the mapping it received): segments '
+                        'that close an active mapping are lost, so the collected (cached) map attributes positions differently from map()')
     r.check_floor()
     return r
